@@ -650,27 +650,40 @@ UnitsMap defineUnitsMap(const UnitsPtr &units)
     return unitsMap;
 }
 
-bool Units::requiresImports() const
+bool unitsRequireImports(const UnitsConstPtr &units, std::vector<UnitsConstPtr> &visited)
 {
     // Function to check child unit dependencies for imports.
-    if (isImport()) {
+    if (units->isImport()) {
         return true;
     }
 
-    auto model = owningModel(shared_from_this());
+    // Units that we are already looking at (a self-reference or a cyclic
+    // definition) cannot add an import.
+    if (std::find(visited.begin(), visited.end(), units) != visited.end()) {
+        return false;
+    }
+    visited.push_back(units);
+
+    auto model = owningModel(units);
     if (model != nullptr) {
-        for (size_t u = 0; u < unitCount(); ++u) {
-            const std::string ref = unitAttributeReference(u);
+        for (size_t u = 0; u < units->unitCount(); ++u) {
+            const std::string ref = units->unitAttributeReference(u);
             auto child = model->units(ref);
-            if ((child == nullptr) || (this == child.get())) {
+            if (child == nullptr) {
                 continue;
             }
-            if (child->requiresImports()) {
+            if (unitsRequireImports(child, visited)) {
                 return true;
             }
         }
     }
     return false;
+}
+
+bool Units::requiresImports() const
+{
+    std::vector<UnitsConstPtr> visited;
+    return unitsRequireImports(shared_from_this(), visited);
 }
 
 bool Units::compatible(const UnitsPtr &units1, const UnitsPtr &units2)
